@@ -3,7 +3,7 @@
     loops of Model/Functions.v: what "the first / last / N largest / N smallest
     values of a sequence" and "the latest non-nil value" mean.  Definitions
     only. *)
-From Shk Require Import Base.Prelude Model.Value Model.Functions Model.Expr Model.Audit.
+From Shk Require Import Base.Prelude Model.Value Model.Functions Model.Expr Model.Fsm Model.Audit.
 From Coq Require Import Sorting.Sorted.
 Open Scope list_scope.
 Open Scope Q_scope.
@@ -91,3 +91,161 @@ Definition auditing_in (s : st) (a : string) : bool :=
 Definition user_var (y : var) : bool :=
   String.eqb (fst y) "" && negb (String.eqb (snd y) "t") && negb (String.eqb (snd y) "mood")
   && negb (String.eqb (snd y) "moodt").
+
+(** * The values a variable's clauses produced *)
+
+Definition target_of (a : assignment) : var := (""%string, as_target a).
+
+(** What one evaluated clause assigns: the value itself for `computes`, the
+    result of one collect step on the current array for `collects` ([Some
+    None]: the value is refused, [None]: the code panics). *)
+Definition assigned_value (a : assignment) (cur : value) (x : value) : option (option value) :=
+  match as_mode a with
+  | ASingle => Some (Some x)
+  | m => match collect m (cur_array cur) (as_n a) x with
+         | COk r => Some (Some (VArr r))
+         | CErr => Some None
+         | CPanic => None
+         end
+  end.
+
+(** One run of processAssignments: the values produced (and accepted) by the
+    clauses that target [y], in order. *)
+Fixpoint produced_assigns (c : acfg) (s : st) (ts : Q) (l : list assignment) (y : var) : list value :=
+  match l with
+  | [] => []
+  | a :: tl =>
+      if negb (has_deps s (as_expr a)) then produced_assigns c s ts tl y else
+      match eval (env_of s) (as_expr a) with
+      | EErr => []
+      | EV x =>
+          match assigned_value a (lookup_val (target_of a) (s_vals s)) x with
+          | Some (Some v) =>
+              (if var_eqb (target_of a) y then [x] else [])
+              ++ produced_assigns c (fst (set_var c s (target_of a) v ts)) ts tl y
+          | _ => []
+          end
+      end
+  end.
+
+(** The state in which an active auditor's clauses run (checkEventForAuditor
+    up to processAssignments: only the auditor's own flags differ from [s]). *)
+Definition visit_entry (s : st) (m : member) (ms : mstate) (w : bool) : st :=
+  let starting := w && negb (ms_auditing ms) in
+  set_ms s (m_name m) (ms_auditing ms || starting)
+         (if starting then match m_expect m with Some (tbl, _) => f_start tbl | None => ms_fsm ms end
+          else ms_fsm ms).
+
+(** One visit of auditor [m]: what its clauses produced for [y] — nothing
+    unless the auditor is active in this round (auditing already, which
+    includes its closing round, or starting now). *)
+Definition produced_visit (c : acfg) (final : bool) (s : st) (ts : Q) (m : member) (y : var) : list value :=
+  match get_ms (m_name m) (s_ms s) with
+  | None => []
+  | Some ms =>
+      match wanted final s m with
+      | Some (Some w) =>
+          if w && negb (ms_auditing ms) && negb (start_ok m) then []
+          else if negb (ms_auditing ms || w && negb (ms_auditing ms)) then []
+          else produced_assigns c (visit_entry s m ms w) ts (m_assigns m) y
+      | _ => []
+      end
+  end.
+
+Fixpoint produced_visit_all (c : acfg) (final : bool) (s : st) (ts : Q) (l : list member) (y : var) : list value :=
+  match l with
+  | [] => []
+  | m :: tl =>
+      produced_visit c final s ts m y ++
+      (let '(s1, _, st1) := visit c final s ts m in
+       match st1 with Running => produced_visit_all c final s1 ts tl y | _ => [] end)
+  end.
+
+(** The part of a round before the auditors are visited. *)
+Definition prelude (c : acfg) (s : st) (ts : Q) (vs : list (var * value)) : st * list out :=
+  let s0 := {| s_mood := s_mood s; s_mood_start := s_mood_start s; s_vals := s_vals s;
+               s_act := filter (fun x => String.eqb (fst x) "") (s_act s);
+               s_ms := map (fun '(b, m) => (b, {| ms_woken := false; ms_auditing := ms_auditing m; ms_fsm := ms_fsm m |})) (s_ms s) |} in
+  let '(s1, o1) := set_var c s0 t_var (VNum ts) ts in
+  let '(s2, o2) := set_var c s1 mood_var (VStr (s_mood s1)) ts in
+  let moodt := match s_mood_start s2 with None => ts | Some m0 => (ts - m0)%Q end in
+  let '(s3, o3) := set_var c s2 moodt_var (VNum moodt) ts in
+  let '(s4, o4) := set_signals c s3 ts vs in
+  (s4, o1 ++ o2 ++ o3 ++ o4).
+
+Definition produced_round (c : acfg) (final : bool) (s : st) (ts : Q) (vs : list (var * value)) (y : var) : list value :=
+  produced_visit_all c final (fst (prelude c s ts vs)) ts (c_members c) y.
+
+(** A history as a sequence of audit rounds (every event of the audit loop is
+    one or two: [event_rounds]). *)
+Record rnd := { r_final : bool; r_ts : Q; r_vs : list (var * value); r_mood : option (string * Q) }.
+
+Definition enter (s : st) (r : rnd) : st :=
+  match r_mood r with Some (m, t0) => with_mood s m t0 | None => s end.
+
+Fixpoint run_rounds (c : acfg) (s : st) (rs : list rnd) : st * status :=
+  match rs with
+  | [] => (s, Running)
+  | r :: tl =>
+      let '(s1, _, st1) := round c (r_final r) (enter s r) (r_ts r) (r_vs r) in
+      match st1 with Running => run_rounds c s1 tl | stt => (s1, stt) end
+  end.
+
+Fixpoint produced_rounds (c : acfg) (s : st) (rs : list rnd) (y : var) : list value :=
+  match rs with
+  | [] => []
+  | r :: tl =>
+      produced_round c (r_final r) (enter s r) (r_ts r) (r_vs r) y ++
+      (let '(s1, _, st1) := round c (r_final r) (enter s r) (r_ts r) (r_vs r) in
+       match st1 with Running => produced_rounds c s1 tl y | _ => [] end)
+  end.
+
+Definition event_rounds (s : st) (e : event) : list rnd :=
+  let at_begin := match s_mood_start s with None => true | Some _ => false end in
+  match e with
+  | EMood ts m =>
+      if String.eqb m (s_mood s) then []
+      else (if at_begin then [] else [{| r_final := false; r_ts := ts; r_vs := []; r_mood := None |}])
+           ++ [{| r_final := false; r_ts := ts; r_vs := []; r_mood := Some (m, ts) |}]
+  | ESig ts vs => [{| r_final := false; r_ts := ts; r_vs := vs; r_mood := None |}]
+  | EFinal ts => if at_begin then [] else [{| r_final := true; r_ts := ts; r_vs := []; r_mood := None |}]
+  end.
+
+(** The rounds of a whole audition: the initial round, then those of the
+    events (each in the state the previous ones left). *)
+Fixpoint history_rounds (c : acfg) (s : st) (es : list event) : list rnd :=
+  match es with
+  | [] => []
+  | e :: tl => event_rounds s e ++ history_rounds c (fst (run_rounds c s (event_rounds s e))) tl
+  end.
+
+Definition initial_round : rnd := {| r_final := false; r_ts := 0; r_vs := []; r_mood := Some ("clear"%string, 0) |}.
+
+(** What a collected variable must hold after its clauses produced [xs]. *)
+Definition collected (md : amode) (n : nat) (xs : list value) : list value :=
+  match md with
+  | ASingle => []
+  | AFirst => firstn n (non_nil xs)
+  | ALast => lastn n (non_nil xs)
+  | ATop => map VNum (firstn n (sort_desc (nums xs)))
+  | ABottom => map VNum (firstn n (sort_asc (nums xs)))
+  end.
+
+(** Every clause of the configuration that targets [y] is `collects y as md n`. *)
+Definition clauses_ok (l : list assignment) (y : var) (md : amode) (n : nat) : Prop :=
+  Forall (fun a => var_eqb (target_of a) y = true -> as_mode a = md /\ as_n a = n) l.
+
+Definition samples_have_actors (vs : list (var * value)) : Prop :=
+  forall x v, In (x, v) vs -> fst x <> ""%string.
+
+(** Every clause of the configuration that targets [y] is a `computes`. *)
+Definition clauses_single (l : list assignment) (y : var) : Prop :=
+  Forall (fun a => var_eqb (target_of a) y = true -> as_mode a = ASingle) l.
+
+(** The rounds of a whole audition ([run_audition]): the initial round, then
+    the rounds of the events. *)
+Definition audition_rounds (c : acfg) (es : list event) : list rnd :=
+  initial_round :: history_rounds c (fst (run_rounds c (init_st c) [initial_round])) es.
+
+Definition signals_have_actors (es : list event) : Prop :=
+  Forall (fun e => match e with ESig _ vs => samples_have_actors vs | _ => True end) es.
